@@ -2,9 +2,9 @@ CONSTANTS
   Macs <- M1
   Ips <- I2
   Sw <- Sw2
-  Locs <- Locs4
+  Locs <- Locs2
   Links <- Cable
-  Kinds <- KAll
+  Kinds <- KFew
   ArpAware = 60
   ArpSilent = 180
   ArpReply = 30
